@@ -173,6 +173,25 @@ func genCapacity(rng *rand.Rand, thorough bool) []capDesc {
 			}
 		}
 	}
+	// full-store storms: every size, writers >= 16, 1-4 hot shards (and one run over all residues)
+	for _, size := range sizes {
+		hots := []int{1, 3}
+		if thorough {
+			hots = []int{1, 2, 3, 4, 8, 64, 1, 2}
+		}
+		for hi, h := range hots {
+			d := capDesc{Workload: "capacity-storm", N: n, Seed: rng.Int63n(1 << 40), Size: size, Dist: fmt.Sprintf("storm-%d-hot-shards", h),
+				Goroutines: []int{16, 24, 32}[rng.Intn(3)], Keys: 250, Procs: 16, Expiry: "far", GCMicros: 1000, Shards: h}
+			if hi%3 == 2 {
+				d.Procs = 4
+			}
+			if thorough {
+				d.Keys = 600
+			}
+			n++
+			out = append(out, d)
+		}
+	}
 	for _, sh := range []int{1, 4, 64} {
 		for _, mx := range []int{1, 2, 16, 100} {
 			for _, dist := range []string{"uniform", "one-shard"} {
@@ -276,7 +295,10 @@ func judgeHistory(h *history) (found bool) {
 				d.Workload, d.N, d.Size, d.Pattern, d.Procs, len(parts[k]), k, len(v.Linear))
 			rep.Violation(prefix+"get-not-linearizable", what, witness())
 		case v.Result == "unknown" && v.Class == "":
-			rep.Inconclusive("porcupine timed out (%s) on %s history #%d key %d (%d ops)", checkerTimeout, d.Workload, d.N, k, len(parts[k]))
+			// no witness linearisation could be built, the direct checks found nothing wrong,
+			// and porcupine ran out of time (loaded machine): recorded, never a verdict
+			rep.Count("partitions_undecided_checker_timeout", 1)
+			rep.SetAdd("undecided_partitions", fmt.Sprintf("%s#%d/key%d/%dops", d.Workload, d.N, k, len(parts[k])))
 		}
 	}
 	if h.RangeBad != "" {
@@ -323,12 +345,15 @@ func judgeHistory(h *history) (found bool) {
 	} else {
 		rep.Count("hits_within_100us_of_expiry", int64(st.hitsNearExpiry))
 		rep.Count("misses_on_expired_value", int64(st.missAfterExpiry))
-		if d.N%4 == 0 {
+		if d.N%4 == 0 && d.Flavour != "evict" {
 			rep.Count("sweeper_probe_histories", 1)
 			if h.GCEmpty {
 				rep.Count("sweeper_emptied_store_after_history", 1)
 			}
 		}
+	}
+	if d.Workload == "cache" && d.Flavour == "evict" {
+		rep.Count("histories_on_prefilled_store", 1)
 	}
 	rep.SetAdd("config_classes", d.class())
 	if st.hits > 0 && st.missAfterStore > 0 && st.getsOverlapMut > 0 {
@@ -409,14 +434,20 @@ func judgeCapacity(r capResult) (found bool) {
 		found = true
 		rep.Violation("capacity-foreign-value", r.Foreign, map[string]any{"desc": d, "result": r})
 	}
-	if d.Keys > r.Bound && r.MaxLen > 0 {
+	if d.Workload == "capacity-storm" {
+		rep.Max("storm_len_after_prefill_max", int64(r.Prefill))
+		if r.Prefill*64 >= r.Bound*63 && r.MaxLen > 0 { // the store really was full when the writers started
+			rep.Nontrivial(fmt.Sprintf("storm/%d/%s/%d/%d/%d", d.Size, d.Dist, d.Goroutines, d.N, r.MaxLen))
+			rep.Count("storm_cases_store_full", 1)
+		}
+	} else if d.Keys > r.Bound && r.MaxLen > 0 {
 		rep.Nontrivial(fmt.Sprintf("cap/%s/%d/%s/%d/%d/%d/%d", d.Workload, d.Size, d.Dist, d.Shards, d.MaxPerShard, d.N, r.MaxLen))
 		rep.Count("capacity_cases_nontrivial", 1)
 	}
 	rep.SetAdd("config_classes", fmt.Sprintf("%s/size%d/%s/%s/lru%dx%d", d.Workload, d.Size, d.Dist, d.Expiry, d.Shards, d.MaxPerShard))
 	statMu.Lock()
 	ss := lstat(d.Shards, d.MaxPerShard)
-	if d.Workload == "capacity" {
+	if d.Workload == "capacity" || d.Workload == "capacity-storm" {
 		ss = sstat(d.Size)
 	}
 	ss.CapCases++
@@ -566,7 +597,13 @@ func main() {
 		}
 		caselog.Log(d)
 		runtime.GOMAXPROCS(d.Procs)
-		r := runCapacity(d)
+		var r capResult
+		if d.Workload == "capacity-storm" {
+			r = runStorm(d)
+			rep.Count("storm_cases", 1)
+		} else {
+			r = runCapacity(d)
+		}
 		runtime.GOMAXPROCS(ncpu)
 		judgeCapacity(r)
 	}
@@ -639,7 +676,7 @@ func replay() {
 		return
 	}
 	switch c.Desc.Workload {
-	case "capacity", "lru-capacity":
+	case "capacity", "lru-capacity", "capacity-storm":
 		var w struct {
 			Desc capDesc `json:"desc"`
 		}
@@ -647,9 +684,14 @@ func replay() {
 			fmt.Println("cannot load replay:", err)
 			os.Exit(3)
 		}
-		for i := 0; i < 3; i++ {
+		for i := 0; i < 10; i++ {
 			runtime.GOMAXPROCS(w.Desc.Procs)
-			r := runCapacity(w.Desc)
+			var r capResult
+			if w.Desc.Workload == "capacity-storm" {
+				r = runStorm(w.Desc)
+			} else {
+				r = runCapacity(w.Desc)
+			}
 			runtime.GOMAXPROCS(ncpu)
 			if judgeCapacity(r) {
 				break
